@@ -116,6 +116,18 @@ def _virtual_time() -> float:
     return loop.time() if loop is not None else 0.0
 
 
+_ACTIVE_WORLD: Any = None
+
+
+def t_sync_global(i):  # noqa: ANN001, ANN201
+    """Module-level sync task (importable by name, so a process pool can pickle it); it dispatches to
+    the world that is currently being stepped."""
+    w = _ACTIVE_WORLD
+    w.emit("START", i)
+    w.executor.block(i)
+    return w._finish_body(i, w._NoResultError_)
+
+
 class _Abort(BaseException):
     """Unwinds a harness thread whose world is being torn down."""
 
@@ -149,6 +161,9 @@ class FakeExecutor(cf.Executor):
         self.threads: Dict[int, _Th] = {}
         self.main_sem = threading.Semaphore(0)
         self.threaded = world.sc.get("executor") == "threads"
+        # 'pickle': behaves like a process pool in one respect - the callable and its arguments cross a pickle
+        # boundary before they run; what cannot be pickled fails the future, as ProcessPoolExecutor does
+        self.pickling = world.sc.get("executor") == "pickle"
 
     def submit(self, fn, /, *args, **kwargs):  # type: ignore[override]
         f: cf.Future = cf.Future()
@@ -184,6 +199,15 @@ class FakeExecutor(cf.Executor):
         f, fn, args, kwargs = self.pending[idx]
         if not f.set_running_or_notify_cancel():
             return
+        if self.pickling:
+            import pickle
+
+            try:
+                fn, args, kwargs = pickle.loads(pickle.dumps((fn, args, kwargs)))
+            except BaseException as exc:
+                self.world.emit("PICKLE_FAILED", idx, type(exc).__name__)
+                f.set_exception(exc)
+                return
         try:
             r = fn(*args, **kwargs)
         except BaseException as exc:  # what a real pool worker does
@@ -271,6 +295,11 @@ class RecvWorld(World):
         self._build()
         self.loop.run_to_quiescence()
         self.after_step()
+
+    def activate(self) -> None:
+        global _ACTIVE_WORLD
+        super().activate()
+        _ACTIVE_WORLD = self
 
     # ------------------------------------------------------------------ construction
     def spec(self, i: int) -> Dict[str, Any]:
@@ -443,6 +472,19 @@ class RecvWorld(World):
 
         self.executor = FakeExecutor(self)
         ack = sc.get("ack_type")
+
+        def ack_value() -> Any:
+            """The acknowledge type as the application passes it: the enum member, or (AcknowledgeType being
+            a str enum) the plain string / a str subclass read from a configuration file."""
+            form = sc.get("ack_type_form", "enum")
+            if not ack:
+                return None
+            if form == "str":
+                return str(ack)
+            if form == "strsub":
+                return type("ConfigStr", (str,), {})(ack)
+            return AcknowledgeType(ack)
+
         self.receiver = RecReceiver(
             broker,
             executor=self.executor,
@@ -451,7 +493,7 @@ class RecvWorld(World):
             max_prefetch=self.P,
             propagate_exceptions=sc.get("propagate", True),
             run_startup=False,
-            ack_type=AcknowledgeType(ack) if ack else None,
+            ack_type=ack_value(),
             on_exit=lambda r: world._on_ret(),
             max_tasks_to_execute=self.N,
             wait_tasks_timeout=self.W,
@@ -471,7 +513,7 @@ class RecvWorld(World):
                     max_async_tasks=self.A if self.A is not None else 100,
                     max_prefetch=self.P,
                     propagate_exceptions=sc.get("propagate", True),
-                    ack_time=AcknowledgeType(ack) if ack else None,
+                    ack_time=ack_value(),
                 ),
             )
             return
@@ -490,6 +532,8 @@ class RecvWorld(World):
     def task_name_for(self, i: int) -> str:
         if self.msgs[i].get("task_kind") == "annot":
             return "t_annot"
+        if self.msgs[i]["flavour"] == "sync" and self.sc.get("executor") == "pickle":
+            return "t_sync_g"
         return "t_sync" if self.msgs[i]["flavour"] == "sync" else "t_async"
 
     def _finish_body(self, i: int, NoResultError: Any) -> Any:
@@ -544,6 +588,8 @@ class RecvWorld(World):
             # same body as t_async; the annotated parameters exercise argument parsing on the way in
             return await t_async(i)
 
+        self._NoResultError_ = NoResultError
+        broker.register_task(t_sync_global, task_name="t_sync_g")
         t_async.__module__ = "mc.recv_world"
         t_sync.__module__ = "mc.recv_world"
         t_annot.__module__ = "mc.recv_world"
